@@ -802,17 +802,18 @@ class Evaluator:
         it = self.eval(g.iter, st)
         sub = st.clone()
         lid = fresh_serial()
+        csym = sym.A('sym', f"$c#{lid}")
         length = None
         if isinstance(it, Term) and it.head == 'zip':
-            elem = Tup([self.element_of(a, sym.idx()) for a in it.args])
+            elem = Tup([self.element_of(a, csym) for a in it.args])
             lens = [a.length for a in it.args if isinstance(a, Num) and a.length is not None]
             length = lens[0] if lens else None
         elif isinstance(it, Term) and it.head == 'range':
             lo, hi = it.args
-            elem = Num(sym.idx() + lo.r)
+            elem = Num(csym + lo.r)
             length = hi.r - lo.r
         elif isinstance(it, Num) and it.length is not None:
-            elem = Num(it.r)      # element at $i
+            elem = it.at(csym)
             length = it.length
         elif isinstance(it, Tup):
             vals = []
@@ -823,13 +824,18 @@ class Evaluator:
             return Tup(vals, 'list')
         else:
             arr = term_as_num(it, True, getattr(it, 'kind', None))
-            elem = Num(arr.r)
+            elem = arr.at(csym)
             length = arr.length
         self.assign(g.target, elem, sub, e)
-        body = self.eval(e.elt, sub)
+        self.loops.append(LoopCtx(lid, 'comp', None, csym, C(0), length, e))
+        try:
+            body = self.eval(e.elt, sub)
+        finally:
+            self.loops.pop()
+        back = {_single_atom(csym): sym.idx()}
         if isinstance(body, Num) and body.length is None:
-            return Num(body.r, length, 'list')
-        t = Term('listcomp', (body, Num(length) if length is not None else NONE), kind='list')
+            return Num(sym.subst(body.r, back), length, 'list')
+        t = Term('listcomp', (body.subst(lambda r: sym.subst(r, back)), Num(length) if length is not None else NONE), kind='list')
         return t
 
     eval_GeneratorExp = eval_ListComp
@@ -1286,6 +1292,11 @@ class Evaluator:
         return r
 
 
+def _single_atom(r: Rat) -> int:
+    (m, c), = r.n.t.items()
+    return m[0][0]
+
+
 def _order(a: Num, b: Num) -> bool:
     """deterministic operand order for symmetric predicates"""
     return sym.show(a.r) > sym.show(b.r)
@@ -1392,7 +1403,7 @@ def _reduce(head):
             return None
         if v.length is None:
             return None
-        return Num(sym.A(head, v.r, v.length))
+        return Num(sym.mk_reduce(head, v.r, v.length))
     return h
 
 
@@ -1400,14 +1411,14 @@ def h_std(ev, pos, kw, st, node):
     v = ev.as_num(_arg(pos, kw, 0, 'a'), True)
     if v is None or v.length is None or (set(kw) - {'a'}) or len(pos) > 1:
         return None
-    return Num(sym.A('Std', v.r, v.length))
+    return Num(sym.mk_reduce('Std', v.r, v.length))
 
 
 def h_var(ev, pos, kw, st, node):
     v = ev.as_num(_arg(pos, kw, 0, 'a'), True)
     if v is None or v.length is None or (set(kw) - {'a'}) or len(pos) > 1:
         return None
-    s = sym.A('Std', v.r, v.length)
+    s = sym.mk_reduce('Std', v.r, v.length)
     return Num(s * s)
 
 
@@ -1497,7 +1508,7 @@ def _minmax(head):
             if len(pos) == 1:
                 v = ev.as_num(pos[0], True)
                 if v is not None and v.length is not None:
-                    return Num(sym.A(head.capitalize(), v.r, v.length))
+                    return Num(sym.mk_reduce(head.capitalize(), v.r, v.length))
             return None
         nums = [ev.as_num(p) for p in pos]
         if any(n is None or n.length is not None for n in nums):
@@ -1603,7 +1614,7 @@ def m_reduce(head):
     def h(ev, recv, pos, kw, st, node):
         if pos or kw or not isinstance(recv, Num) or recv.length is None:
             return None
-        return Num(sym.A(head, recv.r, recv.length))
+        return Num(sym.mk_reduce(head, recv.r, recv.length))
     return h
 
 
